@@ -48,7 +48,7 @@ PROPOSED = [
                   clients=[[{"op": "search", "pattern": {"a": "?x"}}]] * 4)},
     {"property": "C12", "id": "C12-extractrule-writes-under-read-lock", "class": "race",
      "what": "ExtractRule copies fact[\"expires\"] into the stored rule map (vv[\"expires\"] = expires) while doFindRules holds only the shared lock: concurrent events on a rule with an expiration race",
-     "match": {"line_contains": ['vv["expires"]'], "top_in": ["core.ExtractRule"]},
+     "match": {"line_contains": ['vv["expires"] = expires']},      # this statement only: any other write in ExtractRule is a new finding
      "witness": W("indexed", setup=[{"op": "addRule", "id": "r1", "rule": dict(RULE, ttl="100s")}],
                   clients=[[{"op": "event", "event": {"a": 1}}] * 6] * 4)},
     {"property": "C12", "id": "C12-add-add-store-inversion-indexed", "class": "store",
